@@ -187,4 +187,87 @@ MUTANTS = [
     };
 
     let new_config = get_config();'''),
+    # ------------------------------------------------------------------ C19
+    dict(id="c19-deny-swallowed-q", prop="C19", file="src/client.rs", expect="C19-R1",
+         what="Deny in the transaction loop's Q arm no longer stops the query",
+         old='''                                    Ok(PluginOutput::Deny(error)) => {
+                                        error_response(&mut self.write, &error).await?;
+                                        continue;
+                                    }
+
+                                    Ok(PluginOutput::Intercept(result)) => {
+                                        write_all(&mut self.write, result).await?;
+                                        continue;
+                                    }
+
+                                    _ => (),
+                                };
+                            }
+                        }
+
+                        debug!("Sending query to server");''',
+         new='''                                    Ok(PluginOutput::Deny(error)) => {
+                                        error_response(&mut self.write, &error).await?;
+                                    }
+
+                                    Ok(PluginOutput::Intercept(result)) => {
+                                        write_all(&mut self.write, result).await?;
+                                        continue;
+                                    }
+
+                                    _ => (),
+                                };
+                            }
+                        }
+
+                        debug!("Sending query to server");'''),
+    dict(id="c19-no-buffer-reset", prop="C19", file="src/client.rs", expect="C19-R1",
+         what="pending Deny at Sync does not clear the buffered batch",
+         old='''                                error_response(&mut self.write, &error).await?;
+                                plugin_output = None;
+                                self.forget_buffered_prepared_statements();
+                                self.reset_buffered_state();
+                                continue;''',
+         new='''                                error_response(&mut self.write, &error).await?;
+                                plugin_output = None;
+                                self.forget_buffered_prepared_statements();
+                                continue;'''),
+    dict(id="c19-overwrite-again", prop="C19", file="src/client.rs", expect="C19-R2",
+         what="idle-loop Parse arm overwrites the pending verdict again",
+         old='''                                let _ = query_router.infer(&ast);
+                            }
+                            Err(error) => {
+                                warn!(
+                                    "Query parsing error: {} (client: {})",
+                                    error, client_identifier
+                                );
+                            }
+                        };
+                    }
+
+                    self.buffer_parse(message, &pool)?;''',
+         new='''                                let _ = query_router.infer(&ast);
+                                if let Ok(o) = query_router.execute_plugins(&ast).await { plugin_output = Some(o); }
+                            }
+                            Err(error) => {
+                                warn!(
+                                    "Query parsing error: {} (client: {})",
+                                    error, client_identifier
+                                );
+                            }
+                        };
+                    }
+
+                    self.buffer_parse(message, &pool)?;'''),
+    dict(id="c19-no-case-fold", prop="C19", file="src/plugins/table_access.rs", expect="C19-R4",
+         what="unquoted names no longer folded",
+         old='''                Some(ident) => ident.value.to_lowercase(),''', new='''                Some(ident) => ident.value.clone(),'''),
+    dict(id="c19-tablecheck-before-intercept-removed", prop="C19", file="src/query_router.rs", expect="C19-R5",
+         what="table_access no longer dispatched",
+         old='''            let result = table_access.run(self, ast).await;''', new='''            let result: Result<PluginOutput, Error> = { let _ = &mut table_access; Ok(PluginOutput::Allow) };'''),
+    dict(id="c19-keep-denied-statement", prop="C19", file="src/client.rs", expect="C19-R6",
+         what="denied batch keeps its prepared statements (idle-loop Deny)",
+         old='''            if let Some(PluginOutput::Deny(error)) = plugin_output {
+                self.forget_buffered_prepared_statements();''',
+         new='''            if let Some(PluginOutput::Deny(error)) = plugin_output {'''),
 ]
